@@ -309,6 +309,9 @@ func opDeliver(w *World, s *Step) (string, string) {
 	if h := deliverHooks[w.prop]; h != nil {
 		h(c)
 	}
+	if w.pendingExpand != nil {
+		return c.res.class(), "" // sub-step of a sweep: the sweep summarises
+	}
 	suite := "plain"
 	if c.sa != nil {
 		suite = c.sa.Suite.String()
